@@ -86,7 +86,8 @@ def scenario_for(seed, index, tier, _depth=0, _proto=None):
             data = bytes(rng.randrange(256) for _ in range(n_data)).hex()
             steps.insert(pos, ['plugin', mid, 'ch:%d' % mid, data])
             plugins.append(mid)
-            mid += rng.choice([1, 127, 1000])
+            # message ids are the server's business: it may reuse one
+            mid += rng.choice([0, 1, 1, 127, 1000])
     ending = rng.random()
     disc = None
     late = None
@@ -432,15 +433,16 @@ def check_login(scenario, w, st, res, ids, k, lg, ob):
     for _s, mid, ok, data in app.plugin_answers:
         answered.setdefault(mid, []).append((ok, data))
     completed = ends_ok or True
-    for mid in sent_plugins:
+    for mid in sorted(set(sent_plugins)):
         ob()
         a = answered.get(mid, [])
+        n_req = sent_plugins.count(mid)
         must = ends_ok          # with success the server waited for answers
-        if len(a) > 1 or (must and len(a) != 1):
-            V.append(('C10/plugin-answer-count', {'mid': mid, 'n': len(a)}))
+        if len(a) > n_req or (must and len(a) != n_req):
+            V.append(('C10/plugin-answer-count',
+                      {'mid': mid, 'answers': len(a), 'requests': n_req}))
             continue
-        if a:
-            ok, data = a[0]
+        for ok, data in a:
             if scenario['user_plugin_listener']:
                 if not ok or not data.startswith(b'user:'):
                     V.append(('C10/plugin-user-answer-lost',
